@@ -21,6 +21,7 @@ class Scheduler:
         self.local = threading.local()
         self.stale = {}            # actor -> True if its last poll found nothing and no writer moved since
         self.steps = 0
+        self.users = {}            # path -> set of actors that performed a write-side step on it
 
     def actor(self): return getattr(self.local, 'name', None)
 
@@ -31,12 +32,19 @@ class Scheduler:
         with self.cv:
             self.alive.discard(name); self.cv.notify_all()
 
+    def private_to(self, path, name):
+        """is `path` (a temporary) so far only written by actor `name`?"""
+        with self.cv:
+            return self.users.get(path, set()) <= {name}
+
     def step(self, ev, conflicting=True):
         """called by an actor thread right before performing the step described by `ev`"""
         name = self.actor()
         if name is None: return ev
         ev = dict(ev, actor=name)
         with self.cv:
+            if ev['op'] in ('create', 'write', 'close', 'rename', 'unlink'):
+                self.users.setdefault(ev['p'], set()).add(name)
             self.waiting[name] = (ev, conflicting)
             self.cv.notify_all()
             while self.turn != name:
@@ -85,8 +93,8 @@ class StepFile:
 
     def write(self, b):
         h = max(1, len(b) // 2)
-        # writes to / the close of a private temporary commute with every other process's steps
-        private = os.path.basename(self.rel).startswith('.tmp-')
+        # writes to / the close of a temporary only this actor has touched commute with every other process's steps
+        private = os.path.basename(self.rel).startswith('.tmp-') and self.sched.private_to(self.rel, self.sched.actor())
         for part in (b[:h], b[h:]):
             if not part: continue
             self.sched.step({'op': 'write', 'p': self.rel, 'n': len(part)}, self.conf and not private)
@@ -99,7 +107,8 @@ class StepFile:
     def __enter__(self): return self
 
     def _conf_close(self):
-        return self.conf and not os.path.basename(self.rel).startswith('.tmp-')
+        private = os.path.basename(self.rel).startswith('.tmp-') and self.sched.private_to(self.rel, self.sched.actor())
+        return self.conf and not private
 
     def __exit__(self, *a):
         if 'w' in self.mode: self.sched.step({'op': 'close', 'p': self.rel}, self._conf_close())
@@ -153,6 +162,11 @@ def install(sched, root, cropping):
         def remove(self, a):
             sched.step({'op': 'unlink', 'p': rel(a)}, shared(a)); return os.remove(a)
         unlink = remove
+
+        def listdir(self, p='.'):
+            ev = sched.step({'op': 'listdir', 'p': rel(p)}, shared(str(p) + '/'))
+            out = os.listdir(p)
+            ev['obs'] = sorted(out); return out
 
     class GlobProxy:
         def __getattr__(self, k): return getattr(_glob, k)
